@@ -860,9 +860,25 @@ std::string world_name(world const &w) { return std::string(w.wide ? "wchar_t" :
 
 void body()
 {
+  // a fixture is registered once per translation unit (= world) it occurs in: merge by name
   std::vector<fixture> fixtures;
-  c02s_register_all(fixtures);
-  std::sort(fixtures.begin(), fixtures.end(), [](fixture const &a, fixture const &b) { return a.name < b.name; });
+  {
+    std::vector<fixture> parts;
+    c02s_register_all(parts);
+    std::stable_sort(parts.begin(), parts.end(), [](fixture const &a, fixture const &b) { return a.name < b.name; });
+    for (fixture &f : parts)
+    {
+      if (!fixtures.empty() && fixtures.back().name == f.name)
+        for (world &w : f.worlds)
+          fixtures.back().worlds.push_back(std::move(w));
+      else
+        fixtures.push_back(std::move(f));
+    }
+    for (fixture &f : fixtures)
+      std::sort(f.worlds.begin(), f.worlds.end(), [](world const &a, world const &b) {
+        return std::make_pair(a.wide, static_cast<int>(a.sk)) < std::make_pair(b.wide, static_cast<int>(b.sk));
+      });
+  }
   for (char const *b :
        {"static/pairs", "static/outcome/success", "static/outcome/failure", "static/outcome/fatal-failure",
         "static/outcome/leftover-input", "static/entry/parse_string", "static/entry/phrase_parse_string",
@@ -880,6 +896,7 @@ void body()
         "static/value/as_struct-of-2", "static/value/as_struct-of-3", "static/value/as_struct-of-5", "static/value/recursive",
         "static/world/char", "static/world/wchar_t"})
     vf::require_bucket(b);
+  bool const dump = vf::has_extra("--dump"); // by hand: print every successful parse
   std::uint64_t running = 0, fwi = 0;
   vf::count("static/fixtures", 0);
   for (fixture const &fx : fixtures)
@@ -955,6 +972,8 @@ void body()
         {
           VF_COUNT("static/outcome/success");
           vf::count(success_bucket);
+          if (dump)
+            std::fprintf(stderr, "%s | %s | \"%s\" => %s\n", entry.c_str(), got.entry_point, in.c_str(), got.canon.c_str());
         }
         else if (got.fatal)
           VF_COUNT("static/outcome/fatal-failure");
